@@ -205,6 +205,7 @@ Theorem checked_accept cs d t :
 Proof.
   intros Hreq H. unfold checked_with in H.
   destruct (negb (orders_plain d)); [discriminate|].
+  destruct (negb (vectors_1d d)); [discriminate|].
   destruct (of_doc d) as [t'|e] eqn:Od; [|discriminate].
   destruct (first_failing t' cs) as [c|] eqn:Ff; [discriminate|]. injection H as ->.
   pose proof (of_doc_shape d t Od) as Sh. split; [|exact Sh].
